@@ -253,7 +253,11 @@ def build():
     C.cls("Task", fields=dict(target=Real, cancelled=Bool))
     C.ext("Task.cancel", model=lambda I, env, a, k: (I.write_field(env["self"].ref, "cancelled", VBool(True)), NONE)[1],
           trusted_reason="asyncio.Task.cancel (A-ASYNCIO): a cancelled fade task issues no further brightness command")
-    C.ext("Task.add_done_callback", model=common.noop, trusted_reason="asyncio")
+    def add_done_cb(I, env, a, k):
+        emit(I, "add_done_callback", task=env["self"].ref, callback=a[0])
+        return NONE
+    C.ext("Task.add_done_callback", model=add_done_cb,
+          trusted_reason="asyncio (A-ASYNCIO): the callback runs - later, from the loop - once the task is done or cancelled")
     C.cls("FadeLoop", fields=dict(now=Real))
     C.ext("FadeLoop.time", model=lambda I, env, a, k: I.read_field(env["self"].ref, "now"), trusted_reason="loop clock")
 
@@ -308,9 +312,27 @@ def build():
                 cs.append(z3.And(g, z3.If(canc, I.force(I.read_field(this, "ghost_last")).t == tt, tgt == tt)))
         return VBool(z3.Or(cs))
     C.helpers["eventual_is"] = eventual_is
+    def done_callbacks_of_cancelled_task(I, env):
+        """the loop's next step: a fade task that this call cancelled is done, so its done-callbacks run now - after
+        set_fade has returned.  The old task was created by an earlier call of this same function, so its callbacks
+        are the ones this version of the code registers on a new task."""
+        t0 = I.frames[0].env.get("$entry_task")
+        if t0 is None:
+            return
+        t0f = I.force(t0)
+        if t0f.tag != "obj":
+            return
+        if not I.ctx.branch(I.truth(I.read_field(t0f.ref, "cancelled"))):
+            return
+        cbs = [e.args["callback"] for e in I.trace if e.name == "add_done_callback"]
+        for cb in cbs:
+            cbf = I.force(cb)
+            if cbf.tag == "fn":
+                I.call(cbf, [t0f], {})
     C.fn("LightPlatformDirectFade.set_fade",
          params=dict(start_brightness=Real, start_time=Real, target_brightness=Real, target_time=Real),
-         requires=["self.max_fade >= 0"],
+         requires=["self.max_fade >= 0"], lets={"$entry_task": "self.task"},
+         epilogue=done_callbacks_of_cancelled_task,
          ensures=[("the brightness last commanded to the channel - once all fades have finished - is the target of "
                    "THIS command (no earlier fade task survives a newer command)", "eventual_is(target_brightness)")],
          modifies=["self.task", "self.task.cancelled", "self.ghost_last"], raises={})
@@ -443,4 +465,118 @@ def build_extra():
     C.assume("the batch light system is checked for batches of 1-2 lights with one fade chunk each; the scheduler and "
              "sender tasks (_schedule_updates, _send_updates) are not under contract")
     C.only_verify = ["PlatformBatchLightSystem._send_update_batch"]
-    return [C]
+    return [C, schedule_update_set()]
+
+
+def schedule_update_set():
+    """Light._schedule_update: what every hardware channel is told, as a function of the (corrected) start and target
+    colour and the RGBW style.  Spec functions from the code's own comments: a colour channel shows its component
+    (minus the common white part for duck_rgb; nothing for a shade of white with white_only), the white channel shows
+    the common part (only shades of white with white_only)."""
+    C = ContractSet("C09", "Light._schedule_update: channel brightness from the target colour")
+    C.strings = False
+    C.cls("SystemWideDevice", fields={})
+    C.cls("DevicePositionMixin", fields={})
+    C.cls("ColorV", fields=dict(red=Int, green=Int, blue=Int))
+    C.exc("ColorException", "Exception")
+    CV = ObjS("ColorV", red=Int, green=Int, blue=Int)
+
+    def fresh_color(I, nm):
+        c = I.fresh(CV, I.fresh_name(nm))
+        for f in ("red", "green", "blue"):
+            t = I.force(I.read_field(c.ref, f)).t
+            I.ctx.assume(z3.And(t >= 0, t <= 255))
+        return c
+
+    def target_of_stack(I, env, a, k):
+        """(start_color, start_time, target_color, target_time) of the stack (C09 main set: stack invariants); the two
+        colours may be the same object (no fade) or different ones"""
+        sc = fresh_color(I, "start_color")
+        tc = sc if I.ctx.fork(2) == 0 else fresh_color(I, "target_color")
+        emit(I, "stack_target", start=sc, target=tc)
+        return VTuple([sc, VReal(z3.Real("start_time")), tc, VReal(z3.Real("target_time"))])
+    C.cls("ChannelDriver", fields=dict(channel=Str))
+
+    def drv_set_fade(I, env, a, k):
+        emit(I, "set_fade", driver=env["self"].ref, start_b=a[0], start_t=a[1], target_b=a[2], target_t=a[3])
+        return NONE
+    C.ext("ChannelDriver.set_fade", model=drv_set_fade, trusted_reason="platform light channel (back ends: main set)")
+    C.cls("LightsPlatform", fields={})
+    C.ext("LightsPlatform.light_sync", model=common.noop, trusted_reason="platform sync")
+
+    def drivers(I, name):
+        """channels of the light: RGB, RGBW, or a single white channel"""
+        kinds = (("red", "green", "blue"), ("red", "green", "blue", "white"), ("white",))[I.ctx.fork(3)]
+        ents = []
+        for ch in kinds:
+            d = VObj(Obj("ChannelDriver", ObjS("ChannelDriver", {}), "driver_" + ch))
+            ents.append((ch, I.new_list([d], "%s[%s]" % (name, ch))))
+        return I.new_dict(ents, name)
+
+    def style(I, name):
+        return (VStr("duck_rgb"), VStr("white_only"), VStr("min_rgb"), NONE)[I.ctx.fork(4)]
+    C.cls("ClockBase", fields=dict(now=Real))
+    C.ext("ClockBase.get_time", model=lambda I, env, a, k: I.read_field(env["self"].ref, "now"), trusted_reason="loop clock")
+    C.cls("Light", file=LIGHT, bases=["SystemWideDevice", "DevicePositionMixin"], fields=dict(
+        stack=Opaque("Stack"), _last_fade_target=Const(None), hw_drivers=Init(drivers), _rbgw_style=Init(style),
+        platforms=Init(lambda I, name: I.new_list([], name)),
+        machine=ObjS("MachineController", clock=ObjS("ClockBase"))))
+    C.ext("Light._get_color_and_target_time", model=target_of_stack,
+          trusted_reason="colour / fade target of the stack (recursive interpolation; stack contracts: main set)")
+    # brightness and colour correction: identity here (they map a colour to a colour; applied to start and target alike)
+    C.ext("Light.gamma_correct", model=lambda I, env, a, k: a[0], trusted_reason="brightness correction (pure colour map)")
+    C.ext("Light.color_correct", model=lambda I, env, a, k: a[0], trusted_reason="colour correction profile (pure colour map)")
+    C.globals["getattr"] = VFn("model", model=lambda I, a, k: I.read_field(I.force(a[0]).ref, I.pyconst(I.force(a[1]))))
+
+    def chan(I, color, ch, st):
+        r, g, b = (I.force(I.read_field(color.ref, f)).t for f in ("red", "green", "blue"))
+        mn = z3.If(r <= g, z3.If(r <= b, r, b), z3.If(g <= b, g, b))
+        white = z3.And(r == g, g == b)
+        if ch == "white":
+            v = z3.If(white, r, 0) if st == "white_only" else mn
+        else:
+            c = {"red": r, "green": g, "blue": b}[ch]
+            if st == "duck_rgb":
+                v = c - mn
+            elif st == "white_only":
+                v = z3.If(white, 0, c)
+            else:
+                v = c
+        return z3.ToReal(v) / 255.0
+
+    def channels_ok(I):
+        """every channel of the light gets exactly one set_fade whose start / target brightness is that channel's share
+        of the START / TARGET colour respectively, with the stack's start and target times"""
+        this = I.frames[0].env["self"].ref
+        st = I.pyconst(I.force(I.read_field(this, "_rbgw_style")))
+        tgt = [e for e in events_named(I, "stack_target")]
+        if len(tgt) != 1:
+            return VBool(False)
+        sc, tc = I.force(tgt[0].args["start"]), I.force(tgt[0].args["target"])
+        drv = I.container(I.force(I.read_field(this, "hw_drivers")).ref).entries
+        evs = events_named(I, "set_fade")
+        if len(evs) != len(drv):
+            return VBool(False)
+        conj = []
+        for (ch, lst), e in zip(drv, evs):
+            d = I.force(I.container(I.force(lst).ref).items[0])
+            if e.args["driver"] is not d.ref:
+                return VBool(False)
+            sb, tb = I.force(e.args["start_b"]), I.force(e.args["target_b"])
+            sbt = sb.t if sb.tag == "real" else z3.ToReal(sb.t)
+            tbt = tb.t if tb.tag == "real" else z3.ToReal(tb.t)
+            conj += [sbt == chan(I, sc, ch, st), tbt == chan(I, tc, ch, st)]
+        return VBool(z3.And(*conj))
+    C.helpers["channels_ok"] = channels_ok
+    C.trace_helpers = {"channels_ok"}
+    C.fn("Light._schedule_update", loops={0: LoopSpec(invariant=[], unroll=True), 1: LoopSpec(invariant=[], unroll=True),
+                                            2: LoopSpec(invariant=[], unroll=True)},
+         ensures=[("U1: every hardware channel is told the share of the corrected TARGET colour that belongs to it (and "
+                   "starts from the share of the start colour), for RGB, RGBW and white-only lights and every RGBW "
+                   "style - so once the fade has finished the channels show the logical colour", "channels_ok()")],
+         modifies=["self._last_fade_target"], raises={},
+         bounded="BOUNDED: one driver per channel; first update of the light (no remembered fade target)")
+    C.assume("brightness / colour correction are applied to start and target colour alike and are modelled as the "
+             "identity; the skip of unchanged fade targets (_last_fade_target) is not covered (first update only)")
+    C.only_verify = ["Light._schedule_update"]
+    return C
